@@ -1,3 +1,4 @@
 import BitcaskVerif.Resp.Model
 import BitcaskVerif.Resp.Conn
 import BitcaskVerif.Props.C07
+import BitcaskVerif.Props.C01
